@@ -28,6 +28,8 @@ reset_repo() {
   git -C $M/repo checkout -q --detach "$(git -C /repo rev-parse HEAD)" 2>/dev/null
   git -C $M/repo checkout -q -- . 2>/dev/null
   git -C $M/repo clean -fdq -e target 2>/dev/null
+  # several existing tests (and demos written like them) use tempdir_in("target") relative to the test crate
+  mkdir -p $M/repo/tests/unit/target $M/repo/tests/integration/target
 }
 run_demo() {
   (cd $M/repo && unset RUSTFLAGS && cargo test -p $CRATE --offline "$FILTER" 2>&1 | tail -15)
